@@ -5,12 +5,12 @@ import re
 RULES = [
     # class, method regex, id regex, properties
     ("AbstractPathModelDAG", r"_encode_paths", r"add_variables:self\.edge_vars|add_constraint:.*10[ac]", ["C01"]),
-    ("AbstractPathModelDAG", r"_encode_paths", r"subpaths_vars|7[ab]_", ["C10"]),
+    ("AbstractPathModelDAG", r"_encode_paths", r"subpaths_vars|7[ab]_", ["C10", "C05"]),
     ("AbstractPathModelDAG", r"_encode_paths", r"position|path_length", ["C08"]),
     ("AbstractPathModelDAG", r"_apply_safety", r".*", ["C05"]),
     ("AbstractWalkModelDiGraph", r"_encode_walks", r".*", ["C01"]),
     ("AbstractWalkModelDiGraph", r"_encode_walks", r"add_variables:self\.edge_vars|22a", ["C04"]),
-    ("AbstractWalkModelDiGraph", r"_encode_subset_constraints", r".*", ["C10"]),
+    ("AbstractWalkModelDiGraph", r"_encode_subset_constraints", r".*", ["C10", "C05"]),
     ("AbstractWalkModelDiGraph", r"_apply_safety", r".*", ["C05"]),
     ("kFlowDecomp", r".*", r".*", ["C02"]),
     ("kFlowDecompCycles", r".*", r".*", ["C02"]),
